@@ -11,19 +11,27 @@ theorem remove_nothing (s : Schema) (tr : TypeRef) (v : Value) (hv : validateV s
     (hne : v ≠ .null ∧ v ≠ .list [] ∧ v ≠ .map []) :
     removeV s false tr SetTrie.empty v = some v ∨
       (∃ a, s.resolve tr = some a ∧ ((∃ t, a.list = some t ∧ t.rel = "atomic" ∧ v.isList = true) ∨
-                                      (∃ t, a.map = some t ∧ t.rel = "atomic" ∧ v.isMap = true))) := sorry
+                                      (∃ t, a.map = some t ∧ t.rel = "atomic" ∧ v.isMap = true))) :=
+  remove_empty s tr v hv hne
 
 /-- extracting nothing yields nothing below the root -/
 theorem extract_nothing_scalar_or_empty (s : Schema) (tr : TypeRef) (m : List (String × Value)) (t : MapT) (a : Atom)
     (hres : s.resolve tr = some a) (ha : a.map = some t) (hrel : t.rel ≠ "atomic") :
-    removeV s true tr SetTrie.empty (.map m) = none := sorry
+    removeV s true tr SetTrie.empty (.map m) = none :=
+  extract_empty_map s tr m t a hres ha hrel
 
 /-- the field set of any object is a well-formed set -/
-theorem fieldset_wf (s : Schema) (tv : TV) (fs : SetTrie) : toFieldSet s tv = .ok fs → fs.wf = true := sorry
+theorem fieldset_wf (s : Schema) (tv : TV) (fs : SetTrie) : toFieldSet s tv = .ok fs → fs.wf = true := by
+  unfold toFieldSet
+  split
+  · intro h; cases h; exact SetTrie.wf_ofPaths _
+  · intro h; cases h
+  · intro h; cases h
 
 /-- removal and extraction never change scalars and never invent entries: every key of the result of a
 map removal is a key of the input -/
 theorem remove_fields_subset (s : Schema) (extract : Bool) (t : MapT) (toRemove : SetTrie) (m : List (String × Value)) :
-    ∀ x, x ∈ removeFields s extract t toRemove m → ∃ v, (x.1, v) ∈ m := sorry
+    ∀ x, x ∈ removeFields s extract t toRemove m → ∃ v, (x.1, v) ∈ m :=
+  removeFields_keys s extract t toRemove m
 
 end SMD.C14
